@@ -119,8 +119,8 @@ def verify_function(reg, qual, prop):
         elif isinstance(k, KList) and isinstance(k.elem, KRef):
             i = z3.Int(uid("ia"))
             ctx.hyps.append(z3.ForAll([i], and_(z3.Select(v.terms[1], i) >= 0, z3.Select(v.terms[1], i) < a0)))
-        if isinstance(k, KList):
-            ctx.hyps.append(v.terms[0] >= 0)
+        for fact in basic_facts(v):
+            ctx.hyps.append(fact)
         if isinstance(k, KDict):
             ex.assume_dict_wf(v)
     try:
